@@ -132,9 +132,15 @@ class EvalDeriv(BaseOneIndex):
                 points, orders, center, angmom_comps, alphas, prim_coeffs, norm_prim_cart
             )
         elif deriv_type == "direct":
+            if np.any(orders > 2):
+                raise ValueError(
+                    "`deriv_type` 'direct' only supports derivative orders up to 2; use 'general'."
+                )
             output = _eval_first_second_order_deriv_contractions(
                 points, orders, center, angmom_comps, alphas, prim_coeffs, norm_prim_cart
             )
+        else:
+            raise ValueError("`deriv_type` must be one of 'general' or 'direct'.")
         return output
 
 
